@@ -21,3 +21,74 @@ let to_attr = function
   | L [A "attr"; inner; m] -> { Model.a_inner = to_bool inner; Model.a_meta = to_meta m }
   | _ -> raise (Bad "attr")
 let to_attrs x = to_list to_attr x
+
+let to_alen = function
+  | L [A "alit"; n] -> Model.ALit (to_opt to_n n)
+  | A "aother" -> Model.AOther
+  | _ -> raise (Bad "alen")
+
+let rec to_ty (x : sx) : Model.ty =
+  match x with
+  | L [A "tpath"; quals; last; args] -> Model.TPath (to_list to_str quals, to_str last, to_list (to_opt to_ty) args)
+  | L [A "tref"; t] -> Model.TRef (to_ty t)
+  | L [A "ttuple"; l] -> Model.TTuple (to_list to_ty l)
+  | L [A "tarray"; t; len] -> Model.TArray (to_ty t, to_alen len)
+  | L [A "tslice"; t] -> Model.TSlice (to_ty t)
+  | A "tother" -> Model.TOther
+  | _ -> raise (Bad "ty")
+
+let to_field = function
+  | L [A "field"; attrs; ident; t] -> { Model.f_attrs = to_attrs attrs; Model.f_ident = to_opt to_str ident; Model.f_ty = to_ty t }
+  | _ -> raise (Bad "field")
+
+let to_fields = function
+  | L [A "named"; l] -> Model.FNamed (to_list to_field l)
+  | L [A "unnamed"; l] -> Model.FUnnamed (to_list to_field l)
+  | A "unit" -> Model.FUnit
+  | _ -> raise (Bad "fields")
+
+let to_variant = function
+  | L [A "variant"; attrs; ident; fs] -> { Model.v_attrs = to_attrs attrs; Model.v_ident = to_str ident; Model.v_fields = to_fields fs }
+  | _ -> raise (Bad "variant")
+
+let to_gparam = function
+  | L [A "gptype"; i] -> Model.GPType (to_str i)
+  | A "gpother" -> Model.GPOther
+  | _ -> raise (Bad "gparam")
+
+let to_clit = function
+  | L [A "cint"; v] -> Model.CInt (to_opt to_z v)
+  | A "cnotint" -> Model.CNotInt
+  | _ -> raise (Bad "clit")
+
+let to_cexpr = function
+  | L [A "cexpr"; first; plain] -> { Model.ce_first_lit = to_opt to_clit first; Model.ce_plain = to_opt to_z plain }
+  | _ -> raise (Bad "cexpr")
+
+let rec to_use_tree = function
+  | L [A "upath"; i; t] -> Model.UPath (to_str i, to_use_tree t)
+  | L [A "uname"; i] -> Model.UName (to_str i)
+  | L [A "urename"; i; a] -> Model.URename (to_str i, to_str a)
+  | A "uglob" -> Model.UGlob
+  | L [A "ugroup"; l] -> Model.UGroup (to_list to_use_tree l)
+  | _ -> raise (Bad "use_tree")
+
+let rec to_item (x : sx) : Model.item =
+  match x with
+  | L [A "struct"; attrs; ident; gs; fs] -> Model.IStruct (to_attrs attrs, to_str ident, to_list to_gparam gs, to_fields fs)
+  | L [A "enum"; attrs; ident; gs; vs] -> Model.IEnum (to_attrs attrs, to_str ident, to_list to_gparam gs, to_list to_variant vs)
+  | L [A "type"; attrs; ident; gs; t] -> Model.IType (to_attrs attrs, to_str ident, to_list to_gparam gs, to_ty t)
+  | L [A "const"; attrs; ident; t; e] -> Model.IConst (to_attrs attrs, to_str ident, to_ty t, to_cexpr e)
+  | L [A "use"; t] -> Model.IUse (to_use_tree t)
+  | L [A "nest"; l] -> Model.INest (to_list to_item l)
+  | _ -> raise (Bad "item")
+
+let to_file = function
+  | L [A "file"; attrs; items; paths; marker] ->
+    { Model.fl_attrs = to_attrs attrs; Model.fl_items = to_list to_item items; Model.fl_paths = to_list to_path paths; Model.fl_marker = to_bool marker }
+  | _ -> raise (Bad "file")
+
+(* association list of serialized_as strings -> parsed type (None = syn error) *)
+let to_tstr (x : sx) : Model.str -> Model.ty option =
+  let tbl = to_list (function L [k; v] -> (to_str k, to_opt to_ty v) | _ -> raise (Bad "tstr")) x in
+  fun s -> (try List.assoc s tbl with Not_found -> None)
